@@ -66,6 +66,23 @@ pub fn run_line(line: &str, out: &mut String) {
                         Some(p) => format!("Some({})", show(p)),
                         None => "None".into(),
                     }
+                } else if op.starts_with("set_if_hash_not_eq(") {
+                    match ob.set_if_hash_not_eq(val(arg(op))) {
+                        Some(p) => format!("Some({})", show(p)),
+                        None => "None".into(),
+                    }
+                } else if op == "take" {
+                    format!("={}", show(ob.take()))
+                } else if op.starts_with("update_if(") {
+                    // update_if(v,b): the closure stores v and returns b
+                    let inner = &op["update_if(".len()..op.len() - 1];
+                    let (v, b) = inner.split_once(',').unwrap();
+                    let (v, b): (u32, u32) = (v.parse().unwrap(), b.parse().unwrap());
+                    ob.update_if(|x| {
+                        *x = val(v);
+                        b == 1
+                    });
+                    "()".into()
                 } else if op == "get" {
                     format!("={}", show(ob.get()))
                 } else if op.starts_with("next_now(") {
